@@ -83,6 +83,16 @@ Theorem C20_usvg_validators_agree :
 Proof. exact usvg_validators_agree. Qed.
 Print Assumptions C20_usvg_validators_agree.
 
+Theorem C20_usvg_write_defaults :
+  usvg_coordinates_precision_default = 8 /\ usvg_transforms_precision_default = 8 /\
+  usvg_coordinates_precision_help = (2, 8, usvg_coordinates_precision_default) /\
+  usvg_transforms_precision_help = (2, 8, usvg_transforms_precision_default) /\
+  lib_coordinates_precision_default = usvg_coordinates_precision_default /\
+  lib_transforms_precision_default = usvg_transforms_precision_default /\
+  (forall n, usvg_parse_precision_ok n = true <-> 2 <= n <= 8).
+Proof. exact usvg_write_defaults. Qed.
+Print Assumptions C20_usvg_write_defaults.
+
 (* --- the transform handed to the renderer maps the document box onto the target ----------------------- *)
 Theorem C20_fit_transform_matches_size : forall f s v, 0 < is_w s -> 0 < is_h s -> fit_to_size f s = Some v ->
   let t := fit_to_transform f s in
@@ -133,6 +143,24 @@ Theorem C20_export_dims : forall a e d, a_export_id a = true -> a_area_page a = 
 Proof. exact export_dims. Qed.
 Print Assumptions C20_export_dims.
 
+(* --- export rules, full strength (bd4cb7e: node scaled by the same factor as its canvas; 85fde2f: page offset scaled) --- *)
+Theorem C20_export_node_fills_canvas : forall a docsize w h size, a_area_page a = false ->
+  fit_to_size (the_fit a) (to_int_size w h) = Some size ->
+  let t := export_ts a docsize w h in let nb := to_int_size w h in
+  (map_x t (zq (is_w nb)) (zq (is_h nb)) == zq (is_w size) /\ map_y t (zq (is_w nb)) (zq (is_h nb)) == zq (is_h size) /\
+   map_x t 0 0 == 0 /\ map_y t 0 0 == 0 /\ t_kx t == 0 /\ t_ky t == 0)%Q.
+Proof. exact export_node_fills_canvas. Qed.
+Print Assumptions C20_export_node_fills_canvas.
+
+Theorem C20_export_area_page_rules : forall a docsize x y w h psize, a_area_page a = true ->
+  fit_to_size (the_fit a) (to_int_size (fst docsize) (snd docsize)) = Some psize ->
+  let t := export_ts a docsize w h in let doc := to_int_size (fst docsize) (snd docsize) in
+  (map_x t (zq (is_w doc)) (zq (is_h doc)) == zq (is_w psize) /\ map_y t (zq (is_w doc)) (zq (is_h doc)) == zq (is_h psize) /\
+   map_x t x y == x * t_sx t /\ map_y t x y == y * t_sy t)%Q /\
+  page_offset a docsize x y w h = (sat_i32 (Qtrunc (x * t_sx t)%Q), sat_i32 (Qtrunc (y * t_sy t)%Q)).
+Proof. exact export_area_page_rules. Qed.
+Print Assumptions C20_export_area_page_rules.
+
 (* --- trimming (--export-area-drawing), as fixed by cbe5ba7 ------------------------------------------- *)
 Theorem C20_trim_no_panic : forall fit doc canvas c,
   pixmap_new_ok canvas = true -> is_h canvas <= I32_MAX -> exists s, trim fit doc canvas c = ROk s.
@@ -145,7 +173,7 @@ Theorem C20_trim_within_canvas : forall fit doc canvas c s,
 Proof. exact trim_within_canvas. Qed.
 Print Assumptions C20_trim_within_canvas.
 
-Theorem C20_trim_shape : c20_trim_shape_ok = true /\ c20_trim_fallback_ok = true /\ c20_draw_guard_ok = true.
+Theorem C20_trim_shape : c20_trim_shape_ok = true /\ c20_trim_fallback_ok = true /\ c20_draw_guard_ok = true /\ c20_canvas_alloc_ok = true.
 Proof. repeat split; vm_compute; reflexivity. Qed.
 Print Assumptions C20_trim_shape.
 
@@ -175,9 +203,16 @@ Proof. exact fixed_area_page. Qed.
 Example C20_fixed_stdout_write :
   process (mk_args None None None None true true true false false false false)
           {| e_read_ok := true; e_gunzip_ok := true; e_utf8_ok := true; e_xml_ok := true; e_tree := Some (20 # 1, 10 # 1)%Q; e_ids := 1%nat;
-             e_node := NodeMissing; e_content := (2 # 1, 2 # 1, 5 # 1, 5 # 1)%Q; e_encode_ok := true; e_write_ok := false |}
+             e_node := NodeMissing; e_content := (2 # 1, 2 # 1, 5 # 1, 5 # 1)%Q; e_alloc_ok := true; e_encode_ok := true; e_write_ok := false |}
   = (Exit1 EWrite, false).
 Proof. exact fixed_stdout_write. Qed.
+
+Example C20_fixed_alloc_abort :
+  process (mk_args None None (Some (100000 # 1)%Q) None true true false false false false false)
+          {| e_read_ok := true; e_gunzip_ok := true; e_utf8_ok := true; e_xml_ok := true; e_tree := Some (40 # 1, 30 # 1)%Q; e_ids := 0%nat;
+             e_node := NodeMissing; e_content := (0, 0, 5 # 1, 5 # 1)%Q; e_alloc_ok := false; e_encode_ok := true; e_write_ok := true |}
+  = (Exit1 ETargetTooLarge, false).
+Proof. exact fixed_alloc_abort. Qed.
 
 (* --- non-vacuity ------------------------------------------------------------------------------------ *)
 Example C20_run_w7 : process (args_w 7) doc_20x10 = (Exit0 (Some {| is_w := 7; is_h := 4 |}), true).
